@@ -224,6 +224,16 @@ def run(ctx):
                    'same value as returned' if ok else
                    'the trajectory is written at a different index than the one returned', line=c.lineno)
 
+    # on rejection paths the counter must be back at its pre-add value: the
+    # validate-before-mutate dataflow of C10-R1, restricted to the counter
+    from .c10 import rule_add as _c10_add
+    sub = type(ctx)(ctx.prop, ctx.prog, ctx.tier)
+    _c10_add(sub)
+    for o in sub.obligations:
+        if '_next_index' in o.construct and o.rule == 'C10-R1':
+            o.rule = 'C07-R2'
+            ctx.obligations.append(o)
+
     # ---- R3 length source ----------------------------------------------------
     ln = m.func('TrajectoryStore.__len__')
     rets = [n for n in walk_no_nested(ln.node) if isinstance(n, ast.Return) and n.value is not None]
